@@ -417,6 +417,15 @@ func c17Roundtrip(c *fw.Ctx, tg c17Target, devs []c17Dev, report bool) string {
 		return fail("marshal-error", "Marshal fails: "+err.Error())
 	}
 	want := c17RefEncode(v)
+	// the returned bytes belong to the caller: a later Marshal of another value must not change them
+	encCopy := append([]byte{}, enc...)
+	if p := guard(func() {
+		other := c17BaseValue(tg.Type)
+		tlv8.Marshal(other.Interface())
+		tlv8.Marshal(C17AllKinds{S: strings.Repeat("Z", 700)})
+	}); p == nil && !bytes.Equal(enc, encCopy) {
+		return fail("marshal-result-overwritten", "the bytes returned by Marshal changed when Marshal was called again for another value")
+	}
 	if !bytes.Equal(enc, want) {
 		return fail("wire-differs", fmt.Sprintf("encoded bytes differ from the little-endian TLV8 reference (got %d bytes, reference %d)", len(enc), len(want)))
 	}
@@ -429,6 +438,14 @@ func c17Roundtrip(c *fw.Ctx, tg c17Target, devs []c17Dev, report bool) string {
 	}
 	if !c17Equal(v, back.Elem()) {
 		return fail("roundtrip-differs", "Unmarshal(Marshal(v)) != v")
+	}
+	// the input belongs to the caller: Unmarshal must not modify it, and decoding it again gives the same value
+	if !bytes.Equal(enc, want) {
+		return fail("unmarshal-modifies-input", "Unmarshal changed the bytes it was given")
+	}
+	again := reflect.New(tg.Type)
+	if p := guard(func() { err = tlv8.Unmarshal(enc, again.Interface()) }); p != nil || err != nil || !c17Equal(v, again.Elem()) {
+		return fail("second-unmarshal-differs", fmt.Sprintf("decoding the same bytes a second time fails or gives another value (%v %v)", p, err))
 	}
 	c.Class("roundtrip:" + tg.Name)
 	return ""
@@ -624,7 +641,7 @@ func init() {
 	fw.Register(&fw.Check{
 		ID:          "C17",
 		Level:       "exploration",
-		Rule:        "for every RTP message type of the library (setup endpoints, its response, selected and supported stream configurations, supported RTP configuration, streaming status) and three synthetic structs covering every field kind (8/16/32/64-bit ints, float32, bool, string, bytes, nested struct, tagged list, inline list, list elements longer than one fragment): a base value, then every field (reflection-enumerated leaf) moved through its boundary alphabet with 1 and all pairs of 2 simultaneous deviations (thorough: triples); bytes compared with an independent reflective little-endian TLV8 encoder, then Unmarshal(Marshal(v)) compared with v. Decoder inputs per type: all byte strings of length ≤2, every prefix and 8 substitutions per byte of a valid encoding, every tag 0..15 with value lengths 0..9. distinct_nontrivial = distinct (target type, case kind) classes",
+		Rule:        "for every RTP message type of the library (setup endpoints, its response, selected and supported stream configurations, supported RTP configuration, streaming status) and three synthetic structs covering every field kind (8/16/32/64-bit ints, float32, bool, string, bytes, nested struct, tagged list, inline list, list elements longer than one fragment): a base value, then every field (reflection-enumerated leaf) moved through its boundary alphabet with 1 and all pairs of 2 simultaneous deviations (thorough: triples); bytes compared with an independent reflective little-endian TLV8 encoder, then Unmarshal(Marshal(v)) compared with v; ownership: the bytes returned by Marshal must survive later Marshal calls, Unmarshal must not modify its input and decoding the same bytes twice must agree. Decoder inputs per type: all byte strings of length ≤2, every prefix and 8 substitutions per byte of a valid encoding, every tag 0..15 with value lengths 0..9. distinct_nontrivial = distinct (target type, case kind) classes",
 		Run:         c17Run,
 		Replay:      c17Replay,
 		Budget:      func(string) time.Duration { return 20 * time.Minute },
